@@ -229,7 +229,81 @@ theorem flush_drains_everything (s : S) (h : Reachable s) (hns : s.stopped = fal
   rw [← hw]
   exact (emitted_is_prefix_of_written _ hr3).2 hi
 
+/-! #### ... for EVERY schedule (fairness in finite form)
+
+A schedule is any list of loop/consumer steps (`consume`, `send`, `recv`, `fire`), in any
+order, each enabled when it is taken (`runE`). Every enabled step lowers `mu`, so no schedule
+is longer than `mu s`: the loop and the consumer cannot run forever without new writes. A
+schedule that cannot be extended (`Quiescent`: no such step is enabled any more) is what a fair
+execution reaches — fairness says an enabled step is eventually taken, so a fair execution
+does not stop earlier. -/
+
+/-- **Every schedule terminates**: at most `mu s` loop/consumer steps can be taken, in whatever order. -/
+theorem every_schedule_terminates (s s' : S) (h : Reachable s) (sched : List LStep)
+    (hrun : runE s sched = some s') : sched.length ≤ mu s := by
+  have := (runE_spec sched s s' h hrun).2.1
+  omega
+
+/-- **Every maximal schedule drains the queue (timeout ≠ 0).** Whatever order the loop, its timer
+and the consumer take their steps in, when nothing more can happen everything written has
+been emitted, in write order. -/
+theorem every_maximal_schedule_drains (s s' : S) (h : Reachable s) (hns : s.stopped = false)
+    (ht : s.timeout ≠ 0) (sched : List LStep) (hrun : runE s sched = some s') (hq : Quiescent s') :
+    inflight s' = [] ∧ s'.written = s.written ∧
+    s'.emitted.flatMap (·.objs) = s.written.flatMap (·.objs) := by
+  obtain ⟨hr, _, he, _⟩ := runE_spec sched s s' h hrun
+  simp only [env, Prod.mk.injEq] at he
+  have hns' : s'.stopped = false := by rw [he.1]; exact hns
+  have hs := settled_of_quiescent s' hns' hq
+  have hqo : s'.qObjs = [] := by
+    by_cases hqo : s'.qObjs = []
+    · exact hqo
+    · have := hr.armed hns' (by rw [he.2.1]; exact ht) hqo
+      rw [hs.timer] at this; cases this
+  have hi := inflight_nil_of_settled _ hs hqo
+  refine ⟨hi, he.2.2, ?_⟩
+  rw [← he.2.2]
+  exact (emitted_is_prefix_of_written _ hr).2 hi
+
+/-- **After a Flush, every maximal schedule drains the queue, timer or not.** If the flush marker
+is the last thing in the channel (the state right after an accepted `Flush`), any maximal
+schedule ends with nothing in flight. -/
+theorem every_maximal_schedule_after_flush_drains (s s' : S) (h : Reachable s) (hns : s.stopped = false)
+    (hm : MarkerLast s) (sched : List LStep) (hrun : runE s sched = some s') (hq : Quiescent s') :
+    inflight s' = [] ∧ s'.emitted.flatMap (·.objs) = s.written.flatMap (·.objs) := by
+  obtain ⟨hr, _, he, hml⟩ := runE_spec sched s s' h hrun
+  simp only [env, Prod.mk.injEq] at he
+  have hns' : s'.stopped = false := by rw [he.1]; exact hns
+  have hs := settled_of_quiescent s' hns' hq
+  have hqo : s'.qObjs = [] := by
+    rcases hml hm with ⟨pre, hp⟩ | ⟨hqo, _⟩
+    · rw [hs.batchCh] at hp; simp at hp
+    · exact hqo
+  have hi := inflight_nil_of_settled _ hs hqo
+  refine ⟨hi, ?_⟩
+  rw [← he.2.2]
+  exact (emitted_is_prefix_of_written _ hr).2 hi
+
 example : (drain 50 (run (mk 4 3 5) [.write [1] none, .write [2, 3] none])).emitted.map (·.objs) = [[1, 2, 3]] := by
+  decide
+
+/-- "After `Close` the run loop can always get to its `done` case": in every reachable state with
+`done` set and the loop not yet stopped, `stop` or one of the loop's own steps is enabled -/
+def C24_close_returns_full : Prop :=
+  ∀ s : S, Reachable s → s.done = true → s.stopped = false →
+    (stop s).isSome = true ∨ (recv s).isSome = true ∨ (fire s).isSome = true ∨ (send s).isSome = true
+
+/-- it holds whenever the loop is not blocked sending (decidable exclusion) -/
+theorem close_returns_partial (s : S) (hd : s.done = true) (hs : s.stopped = false)
+    (hsend : s.sending = none) : (stop s).isSome = true := by
+  simp [stop, hd, hs, hsend]
+
+/-- and fails when it is: the loop waits for the consumer, `Close` waits for the loop -/
+theorem close_returns_witness : ¬ C24_close_returns_full := by
+  intro h
+  have := h (run (mk 4 1 0) [.write [1] none, .recv, .send, .write [2] none, .recv, .close])
+    ⟨4, 1, 0, 0, _, rfl⟩ (by decide) (by decide)
+  revert this
   decide
 
 /-- What the model shows about `Close` (outside the property, recorded because the C23
